@@ -89,8 +89,9 @@ theorem lazy_gate_old_partial (c : Config) (s : Sys) (mb' : MB) (h : Reachable c
     · rename_i hc; exact canFetch_gateWeak hc hk (by rw [e3, hr])
     · simp at hg
 
-/-- … so the gate is right whenever no message below the awaited number is buffered (no lagging reader) -/
-theorem lazy_gate_old_no_lag (c : Config) (s : Sys) (mb' : MB) (h : Reachable c s) (hr : c.gateRule = .lowest)
+/-- … so the gate as found is right whenever no message below the awaited number is buffered (no lagging reader);
+`_partial`: the extra hypothesis `hlag` excludes exactly the D6 situation (`lazy_gate_old_counterexample`) -/
+theorem lazy_gate_old_no_lag_partial (c : Config) (s : Sys) (mb' : MB) (h : Reachable c s) (hr : c.gateRule = .lowest)
     (hg : s.mb.gateStep = some (true, mb')) (hk : s.mb.killed = false)
     (hlag : ∀ sub ∈ s.mb.subs, ∀ x, sub.waitingFor = some x → ∀ e ∈ s.mb.heap, x ≤ e.1) : GateOk s.mb := by
   obtain ⟨sub, hm, hd, x, hx, hor⟩ := lazy_gate_old_partial c s mb' h hr hg hk
